@@ -68,6 +68,24 @@ class RealVideo:
         return getattr(self.video, k)
 
 
+class FakeInst:
+    """Quacks like sio.Instance for LabelsReader(instances_key=True): is_empty, numpy()."""
+
+    def __init__(self, seed=0, empty=False, nodes=2):
+        self.is_empty, self._seed, self._nodes = bool(empty), seed, nodes
+
+    def numpy(self):
+        import numpy as np
+        if self.is_empty:
+            return np.full((self._nodes, 2), np.nan)
+        return np.array([[1.0 + (self._seed + 3 * k) % 5, 1.0 + (self._seed + k) % 4] for k in range(self._nodes)], dtype="float64")
+
+
+class FakeSkel:
+    def __init__(self, n):
+        self.nodes = ["n%d" % k for k in range(n)]
+
+
 class FakeLF:
     def __init__(self, labels, pos, frame_idx, video, instances=()):
         self._labels, self.pos, self.frame_idx, self.video = labels, pos, frame_idx, video
